@@ -33,3 +33,30 @@ def se(e):
 def so(o):
     if not o.get('ok'): return 'ERR'+('(panic)' if 'panic' in o else '')+(' '+o.get('cls','') )
     return sv(o['v'])
+
+def sscope(var, s):
+    t = s.get('t')
+    if t == 'all': return var
+    if t == 'eq': return f"{var} == {sv(s['e'])}"
+    if t == 'in': return f"{var} in {sv(s['e'])}"
+    if t == 'inSet': return f"{var} in [{', '.join(sv(x) for x in (s['es'] if isinstance(s['es'], list) else []))}]"
+    if t == 'is': return f"{var} is {s['ty']}"
+    if t == 'isIn': return f"{var} is {s['ty']} in {sv(s['e'])}"
+    return str(s)
+
+def sp(p):
+    """policy in wire form"""
+    conds = p.get('conds') if isinstance(p.get('conds'), list) else []
+    annos = p.get('annos') if isinstance(p.get('annos'), list) else []
+    a = ''.join('@%s(%r) ' % (x['k'], ''.join(chr(c) for c in x['v'])) for x in annos)
+    return "%s%s(%s, %s, %s)%s" % (a, p['effect'], sscope('principal', p['principal']), sscope('action', p['action']),
+                                  sscope('resource', p['resource']),
+                                  ''.join(" %s { %s }" % (c['kind'], se(c['body'])) for c in conds))
+
+def sreq(env):
+    return "P=%s A=%s R=%s C=%s" % (sv(env['p']), sv(env['a']), sv(env['r']), sv(env['c']))
+
+def sres(r):
+    if not isinstance(r, dict): return str(r)
+    if r.get('st') in ('skip', 'fail'): return r.get('st') + (':' + r.get('why', '') if r.get('why') else '')
+    return "%s reasons=%s errors=%s" % (r.get('decision'), sorted(r.get('reasons') or []), sorted(r.get('errors') or []))
